@@ -180,8 +180,11 @@ def refine_tie(ctx, h, db, E, code, pks, reqs, checks):
             except core.TransactionError: real = {'error': 'TransactionError'}
             obj._rbits_ = obj._wbits_ = 0
             rollback()
-        reqs.append({'op': 'refine', 'bases': h['bases'], 'discr': code, 'cls': c, 'entity': e, 'rbits': rb, 'wbits': wb})
-        checks.append(('refine', [h['bases'], c, e, rb, wb], real))
+        # the layout test of the code, evaluated on the real `_bits_` tables (its meaning is theorem C27_refine_bits_meaning)
+        compat = not any(E[e]._bits_.get(attr) != bit for attr, bit in E[c]._bits_.items())
+        ctx.count('refine-layout:' + ('compatible' if compat else 'incompatible'))
+        reqs.append({'op': 'refine', 'bases': h['bases'], 'discr': code, 'cls': c, 'entity': e, 'rbits': rb, 'wbits': wb, 'compat': compat})
+        checks.append(('refine', [h['bases'], c, e, rb, wb, compat], real))
 
 
 # ----------------------------------------------------------------------------------------------- tie: table references and the discriminator filter
